@@ -16,9 +16,11 @@ package vector
 import (
 	"crypto/sha1"
 	"fmt"
+	"slices"
 	"sort"
 	"strconv"
 	"strings"
+	"sync"
 	"sync/atomic"
 	"testing"
 	"time"
@@ -100,35 +102,58 @@ func (o c06Op) String() string {
 }
 
 // c06Model is the operation on the plain array. ok=false: "rejected, no value".
-func c06Model(m []int32, o c06Op) ([]int32, bool) {
+// The result is a fresh exact-size array, or is built in *buf when buf != nil
+// (then it is only valid until buf is used again).
+func c06Model(buf *[]int32, m []int32, o c06Op) ([]int32, bool) {
 	n := int32(len(m))
+	mk := func(src []int32, extra int) []int32 {
+		k := len(src) + extra
+		if buf == nil {
+			r := make([]int32, k)
+			copy(r, src)
+			return r
+		}
+		if cap(*buf) < k {
+			*buf = make([]int32, k, k+k/4+64)
+		}
+		r := (*buf)[:k]
+		copy(r, src)
+		return r
+	}
 	switch o.k {
 	case c06Conj:
-		r := make([]int32, n+1)
-		copy(r, m)
+		r := mk(m, 1)
 		r[n] = o.x
 		return r, true
 	case c06Pop:
 		if n == 0 {
 			return nil, false
 		}
-		return append([]int32{}, m[:n-1]...), true
+		return mk(m[:n-1], 0), true
 	case c06Assoc:
 		if o.i < 0 || o.i > n {
 			return nil, false
 		}
 		if o.i == n {
-			return c06Model(m, c06Op{k: c06Conj, x: o.x})
+			return c06Model(buf, m, c06Op{k: c06Conj, x: o.x})
 		}
-		r := append([]int32{}, m...)
+		r := mk(m, 0)
 		r[o.i] = o.x
 		return r, true
 	}
 	if o.i < 0 || o.j > n || o.i > o.j {
 		return nil, false
 	}
-	return append([]int32{}, m[o.i:o.j]...), true
+	return mk(m[o.i:o.j], 0), true
 }
+
+// c06Scratch: reusable buffers of one task (model results that are not retained, structure dumps).
+type c06Scratch struct {
+	a, b []int32
+	dump []byte
+}
+
+var c06ScratchPool = sync.Pool{New: func() any { return &c06Scratch{} }}
 
 func c06Apply(v Vector, o c06Op) Vector {
 	switch o.k {
@@ -360,10 +385,11 @@ var c06Steps atomic.Int64
 // c06Step executes one operation on the implementation and on the array model,
 // compares the outcome through the whole read API, and re-validates the
 // receiver. ok reports whether a correct result value exists to continue from.
-func c06Step(r *c06Rep, l *vk.Local, where string, v Vector, m []int32, o c06Op, js bool) (got Vector, wm []int32, ok bool) {
+// The expected array is freshly allocated when buf == nil, otherwise built in *buf.
+func c06Step(r *c06Rep, l *vk.Local, buf *[]int32, where string, v Vector, m []int32, o c06Op, js bool) (got Vector, wm []int32, ok bool) {
 	pre := c06Kind(v) + "." + o.name()
 	n := int32(len(m))
-	wm, wok := c06Model(m, o)
+	wm, wok := c06Model(buf, m, o)
 	desc := func() string {
 		return fmt.Sprintf("%s; receiver %s; %s", where, c06Show(v), o)
 	}
@@ -458,7 +484,7 @@ func c06BuildChain(r *c06Rep, l *vk.Local, upto, keepTo, keepFrom int) *c06Chain
 		// Full validation of each conj for the lengths that are swept, a cheap one
 		// on the long run-up to the height-3 boundary.
 		if n <= keepTo || n >= keepFrom-1 {
-			g, gm, ok := c06Step(r, l, "conj chain from Empty", v, m, c06Op{k: c06Conj, x: int32(n)}, false)
+			g, gm, ok := c06Step(r, l, nil, "conj chain from Empty", v, m, c06Op{k: c06Conj, x: int32(n)}, false)
 			if !ok {
 				return nil
 			}
@@ -478,21 +504,23 @@ func c06Ways(r *c06Rep, l *vk.Local, ch *c06Chain, n int, way int) (Vector, []in
 	case 0:
 		return ch.v[n], ch.m[n], true
 	case 1:
-		return c06Step(r, l, fmt.Sprintf("conj-built vector of length %d", n+1), ch.v[n+1], ch.m[n+1], c06Op{k: c06Pop}, false)
+		return c06Step(r, l, nil, fmt.Sprintf("conj-built vector of length %d", n+1), ch.v[n+1], ch.m[n+1], c06Op{k: c06Pop}, false)
 	}
 	v, m := ch.v[n+33], ch.m[n+33]
 	where := fmt.Sprintf("vector built by conj to %d, pop to %d, conj to %d", n+33, max(0, n-33), n)
 	ok := true
 	for len(m) > max(0, n-33) && ok {
-		v, m, ok = c06Step(r, l, where, v, m, c06Op{k: c06Pop}, false)
+		v, m, ok = c06Step(r, l, nil, where, v, m, c06Op{k: c06Pop}, false)
 	}
 	for len(m) < n && ok {
-		v, m, ok = c06Step(r, l, where, v, m, c06Op{k: c06Conj, x: int32(20000 + len(m))}, false)
+		v, m, ok = c06Step(r, l, nil, where, v, m, c06Op{k: c06Conj, x: int32(20000 + len(m))}, false)
 	}
 	return v, m, ok
 }
 
 func c06LengthSweep(r *c06Rep, l *vk.Local, ch *c06Chain, n int, full int) {
+	sc := c06ScratchPool.Get().(*c06Scratch)
+	defer c06ScratchPool.Put(sc)
 	for way := 0; way < 3; way++ {
 		v, m, ok := c06Ways(r, l, ch, n, way)
 		if !ok {
@@ -504,10 +532,10 @@ func c06LengthSweep(r *c06Rep, l *vk.Local, ch *c06Chain, n int, full int) {
 			continue
 		}
 		for _, i := range c06Positions(n, full, 0) {
-			c06Step(r, l, where, v, m, c06Op{k: c06Assoc, i: int32(i), x: int32(-7 - i)}, false)
+			c06Step(r, l, &sc.a, where, v, m, c06Op{k: c06Assoc, i: int32(i), x: int32(-7 - i)}, false)
 		}
-		c06Step(r, l, where, v, m, c06Op{k: c06Conj, x: -3}, false)
-		c06Step(r, l, where, v, m, c06Op{k: c06Pop}, false)
+		c06Step(r, l, &sc.a, where, v, m, c06Op{k: c06Conj, x: -3}, false)
+		c06Step(r, l, &sc.a, where, v, m, c06Op{k: c06Pop}, false)
 	}
 }
 
@@ -515,9 +543,11 @@ func c06LengthSweep(r *c06Rep, l *vk.Local, ch *c06Chain, n int, full int) {
 // operation again, including every slice of the slice.
 func c06SubSweep(r *c06Rep, l *vk.Local, base Vector, bm []int32, i int, full int) {
 	n := len(bm)
+	sc := c06ScratchPool.Get().(*c06Scratch)
+	defer c06ScratchPool.Put(sc)
 	where := fmt.Sprintf("conj-built vector of length %d", n)
 	for _, j := range c06Positions(n, full, 0) {
-		s, sm, ok := c06Step(r, l, where, base, bm, c06Op{k: c06Sub, i: int32(i), j: int32(j)}, n <= full)
+		s, sm, ok := c06Step(r, l, nil, where, base, bm, c06Op{k: c06Sub, i: int32(i), j: int32(j)}, n <= full)
 		if !ok {
 			continue
 		}
@@ -525,23 +555,23 @@ func c06SubSweep(r *c06Rep, l *vk.Local, base Vector, bm []int32, i int, full in
 		w2 := fmt.Sprintf("%s sliced (%d,%d)", where, i, j)
 		ps := c06Positions(m, full, i)
 		for _, a := range ps {
-			c06Step(r, l, w2, s, sm, c06Op{k: c06Assoc, i: int32(a), x: int32(-7 - a)}, false)
+			c06Step(r, l, &sc.a, w2, s, sm, c06Op{k: c06Assoc, i: int32(a), x: int32(-7 - a)}, false)
 		}
-		c06Step(r, l, w2, s, sm, c06Op{k: c06Conj, x: -3}, false)
-		c06Step(r, l, w2, s, sm, c06Op{k: c06Pop}, false)
+		c06Step(r, l, &sc.a, w2, s, sm, c06Op{k: c06Conj, x: -3}, false)
+		c06Step(r, l, &sc.a, w2, s, sm, c06Op{k: c06Pop}, false)
 		for _, a := range ps {
 			for _, b := range ps {
-				ss, ssm, ok := c06Step(r, l, w2, s, sm, c06Op{k: c06Sub, i: int32(a), j: int32(b)}, false)
+				ss, ssm, ok := c06Step(r, l, &sc.a, w2, s, sm, c06Op{k: c06Sub, i: int32(a), j: int32(b)}, false)
 				if !ok || a != b-1 && a != 0 && b != m {
 					continue
 				}
 				// a few further steps on the slice of the slice
 				w3 := fmt.Sprintf("%s sliced (%d,%d)", w2, a, b)
 				k := int32(len(ssm))
-				c06Step(r, l, w3, ss, ssm, c06Op{k: c06Sub, i: 0, j: k + 1}, false)
-				c06Step(r, l, w3, ss, ssm, c06Op{k: c06Sub, i: -1, j: k}, false)
-				c06Step(r, l, w3, ss, ssm, c06Op{k: c06Conj, x: -4}, false)
-				c06Step(r, l, w3, ss, ssm, c06Op{k: c06Assoc, i: k - 1, x: -5}, false)
+				c06Step(r, l, &sc.b, w3, ss, ssm, c06Op{k: c06Sub, i: 0, j: k + 1}, false)
+				c06Step(r, l, &sc.b, w3, ss, ssm, c06Op{k: c06Sub, i: -1, j: k}, false)
+				c06Step(r, l, &sc.b, w3, ss, ssm, c06Op{k: c06Conj, x: -4}, false)
+				c06Step(r, l, &sc.b, w3, ss, ssm, c06Op{k: c06Assoc, i: k - 1, x: -5}, false)
 			}
 		}
 		// the underlying vector must not have been touched by any of this
@@ -555,8 +585,9 @@ func c06SubSweep(r *c06Rep, l *vk.Local, base Vector, bm []int32, i int, full in
 
 // c06Key is the canonical key of a state: a hash of the complete private
 // structure (kind, window, count, height, tail, every tree node).
-func c06Key(v Vector) [20]byte {
-	b := make([]byte, 0, 256)
+func c06Key(buf *[]byte, v Vector) [20]byte {
+	b := (*buf)[:0]
+	defer func() { *buf = b }()
 	switch v := v.(type) {
 	case *vector:
 		b = append(b, 'V')
@@ -678,12 +709,13 @@ func c06BfsOps(m []int32) (branch []c06Op, probes []c06Op) {
 	return
 }
 
-func c06BFS(c *vk.Ctx, ch *c06Chain, roots []int, depth int) {
-	var vers []c06Ver
+func c06BFS(c *vk.Ctx, tag string, ch *c06Chain, roots []int, depth int) {
+	vers := make([]c06Ver, 0, 1<<21)
 	visited := map[[20]byte]int32{}
 	var frontier []int32
 	for _, n := range roots {
-		k := c06Key(ch.v[n])
+		var kb []byte
+		k := c06Key(&kb, ch.v[n])
 		if _, dup := visited[k]; dup {
 			continue
 		}
@@ -724,30 +756,42 @@ func c06BFS(c *vk.Ctx, ch *c06Chain, roots []int, depth int) {
 		c.Parallel(len(frontier), func(l *vk.Local, t int) {
 			idx := frontier[t]
 			st := vers[idx]
+			sc := c06ScratchPool.Get().(*c06Scratch)
+			defer c06ScratchPool.Put(sc)
 			where := c06Trace(vers, idx)
 			branch, probes := c06BfsOps(st.m)
 			for _, o := range branch {
-				got, gm, ok := c06Step(&reps[t], l, where, st.v, st.m, o, false)
+				got, gm, ok := c06Step(&reps[t], l, &sc.a, where, st.v, st.m, o, false)
 				if !ok {
 					rej[t]++
 					continue
 				}
 				var key [20]byte
-				if p := vk.Try(func() { key = c06Key(got) }); p != "" {
+				if p := vk.Try(func() { key = c06Key(&sc.dump, got) }); p != "" {
 					reps[t].add("structure-dump-panic", where+"."+o.String()+": "+p)
 					continue
 				}
-				if _, seen := visited[key]; !seen {
-					// first sight of this structure: JSON too
-					if k, msg := c06SameT(got, gm, true); k != "" {
-						reps[t].add(c06Kind(st.v)+"."+o.name()+":result-"+k, fmt.Sprintf("%s.%s: %s", where, o, msg))
-						continue
+				if rep, seen := visited[key]; !seen {
+					// first sight of this structure: JSON too (short values only: the
+					// implementation's JSON costs one allocation per element), and keep the array
+					if len(gm) <= 100 {
+						if k, msg := c06SameT(got, gm, true); k != "" {
+							reps[t].add(c06Kind(st.v)+"."+o.name()+":result-"+k, fmt.Sprintf("%s.%s: %s", where, o, msg))
+							continue
+						}
 					}
+					gm = append(make([]int32, 0, len(gm)), gm...)
+				} else {
+					// equal structure => equal contents; the version shares the array of the representative
+					if !slices.Equal(vers[rep].m, gm) {
+						reps[t].add("equal-structure-different-contents", fmt.Sprintf("%s.%s has the same private structure as %s but the arrays differ", where, o, c06Trace(vers, rep)))
+					}
+					gm = vers[rep].m
 				}
 				succs[t] = append(succs[t], c06Succ{got, gm, key, o})
 			}
 			for _, o := range probes {
-				c06Step(&reps[t], l, where, st.v, st.m, o, false)
+				c06Step(&reps[t], l, &sc.a, where, st.v, st.m, o, false)
 				rej[t]++
 			}
 			// every ancestor version must still read as recorded
@@ -765,12 +809,8 @@ func c06BFS(c *vk.Ctx, ch *c06Chain, roots []int, depth int) {
 				transitions++
 				id := int32(len(vers))
 				if rep, seen := visited[s.key]; seen {
-					// equal structure => equal contents; share the array of the representative
-					same := len(vers[rep].m) == len(s.m)
-					for i := 0; same && i < len(s.m); i++ {
-						same = vers[rep].m[i] == s.m[i]
-					}
-					if !same {
+					// (found in the same level: compare here)
+					if !slices.Equal(vers[rep].m, s.m) {
 						c.Violate("equal-structure-different-contents", fmt.Sprintf("%s.%s has the same private structure as %s but the arrays differ", c06Trace(vers, frontier[t]), s.op, c06Trace(vers, rep)), nil)
 					}
 					dupVersions++
@@ -784,23 +824,21 @@ func c06BFS(c *vk.Ctx, ch *c06Chain, roots []int, depth int) {
 			}
 		}
 		perLevel = append(perLevel, int64(len(next)))
+		if len(next) > 0 && (level == 3 || level == depth) {
+			c.Sample(c06Trace(vers, next[len(next)/2]))
+		}
 		frontier = next
 		revalidate(level)
-		if c.Violations() > 0 && level >= 3 {
-			// counterexamples are already minimal (breadth first); deeper levels only repeat them
-			c.Capped(fmt.Sprintf("BFS stopped after level %d because violations were found", level))
-			break
-		}
 	}
-	c.Set("states", states)
-	c.Set("transitions", transitions)
-	c.Set("traces_validated_against_impl", transitions)
-	c.Set("bfs_rejected_requests_checked", rejected)
-	c.Set("bfs_versions_retained_and_revalidated", len(vers))
-	c.Set("bfs_duplicate_versions", dupVersions)
-	c.Set("bfs_new_states_per_level", perLevel)
-	c.Set("bfs_depth", depth)
-	c.Set("bfs_roots", len(roots))
+	c.Add("states", states)
+	c.Add("transitions", transitions)
+	c.Add("traces_validated_against_impl", transitions)
+	c.Add("bfs_rejected_requests_checked", rejected)
+	c.Add("bfs_versions_retained_and_revalidated", int64(len(vers)))
+	c.Add("bfs_duplicate_versions", dupVersions)
+	c.Set("bfs_"+tag+"_new_states_per_level", perLevel)
+	c.Set("bfs_"+tag+"_depth", depth)
+	c.Set("bfs_"+tag+"_roots", len(roots))
 }
 
 // ---------------------------------------------------------------- the check
@@ -811,8 +849,8 @@ func TestVerifC06(t *testing.T) {
 		subFull := vk.Pick(c, 48, 72)
 		depth := vk.Pick(c, 6, 7)
 		thorough := c.Thorough()
-		c.Rule(fmt.Sprintf("(1) length sweep: every length 0..%d%s built three ways (conj; pop from n+1; conj/pop/conj), Assoc at every index -1..n+1, Conj, Pop, each result and the receiver compared with the array through Len, Index(every i), iterator (+JSON of the base); (2) slice sweep: every (i,j) in -1..n+1 for n<=%d and boundary positions for n in {63..67,1023..1026,1055..1058%s}, and on every slice every Assoc/Conj/Pop and every slice of the slice; (3) breadth-first search to depth %d from the conj-built vectors of lengths 0..70 and 1050..1062 over {conj a, conj b, pop, assoc first/mid/last, sub(0,n-1), sub(1,n)} plus rejected-request probes, states de-duplicated on a hash of the private structure; (4) vals.Index/vals.Assoc on lists. class = (representation and tree shape of the receiver, operation and position class, shape of the result or rejection)",
-			maxLen, map[bool]string{true: " and 32797..32803", false: ""}[thorough], subFull, map[bool]string{true: ",32799..32802", false: ""}[thorough], depth))
+		c.Rule(fmt.Sprintf("(1) length sweep: every length 0..%d%s built three ways (conj; pop from n+1; conj/pop/conj), Assoc at every index -1..n+1, Conj, Pop, each result and the receiver compared with the array through Len, Index(every i), iterator (+JSON of the base); (2) slice sweep: every (i,j) in -1..n+1 for n<=%d and boundary positions for n in {63..67,1023..1026,1055..1058%s}, and on every slice every Assoc/Conj/Pop and every slice of the slice; (3) breadth-first search to depth %d from the conj-built vectors of lengths 0..70 and to depth %d from those of lengths 1050..1062 over {conj a, conj b, pop, assoc first/mid/last, sub(0,n-1), sub(1,n)} plus rejected-request probes, states de-duplicated on a hash of the private structure; (4) vals.Index/vals.Assoc on lists. class = (representation and tree shape of the receiver, operation and position class, shape of the result or rejection)",
+			maxLen, map[bool]string{true: " and 32797..32803", false: ""}[thorough], subFull, map[bool]string{true: ",32799..32802", false: ""}[thorough], depth, depth-1))
 		c.Assume("elements are ints; the reference model is a plain []int32 copy",
 			"BFS de-duplication assumes that two values with identical private structure have identical futures (every transition is nevertheless executed on a real value and validated)",
 			"concurrent use of one vector from several goroutines is exercised only incidentally (parallel workers share versions)")
@@ -908,10 +946,12 @@ func TestVerifC06(t *testing.T) {
 		for n := 0; n <= 70; n++ {
 			roots = append(roots, n)
 		}
+		c06BFS(c, "short", ch, roots, depth)
+		roots = nil
 		for n := 1050; n <= 1062; n++ {
 			roots = append(roots, n)
 		}
-		c06BFS(c, ch, roots, depth)
+		c06BFS(c, "long", ch, roots, depth-1)
 		c.Set("steps_validated_total", c06Steps.Load())
 		phase("3-bfs")
 
